@@ -146,14 +146,15 @@ LeafCorr(kind) ==
            L("half", TRUE, {}, {"zero-secret"}), L("wrongtype", TRUE, {}, {}), L("swap", FALSE, {}, {}), L("random", FALSE, {}, {}) }
     [] kind = "prime" ->
          { L("absent", FALSE, {"bad-prime"}, {}), L("null", FALSE, {"bad-prime"}, {}), L("empty", FALSE, {"bad-prime"}, {}),
-           L("small", FALSE, {"bad-prime"}, {}), L("short", FALSE, {"bad-prime"}, {}), L("long", FALSE, {"bad-prime"}, {}),
+           L("small", FALSE, {"bad-prime"}, {}), L("smallpadded", FALSE, {"bad-prime"}, {}),   \* padded: the same tiny value in full-width bytes
+           L("short", FALSE, {"bad-prime"}, {}), L("long", FALSE, {"bad-prime"}, {}),
            L("even", FALSE, {"bad-prime"}, {}), L("notblum", FALSE, {"bad-prime"}, {}), L("composite", FALSE, {"bad-prime"}, {}),
            L("notsafe", FALSE, {"bad-prime"}, {}), L("halfprime", FALSE, {"bad-prime"}, {}),
            L("wrongtype", TRUE, {}, {}), L("swap", FALSE, {}, {}) }
     [] kind = "modulus" ->
          { L("absent", FALSE, {"bad-modulus"}, {}), L("null", FALSE, {"bad-modulus"}, {}), L("empty", FALSE, {"bad-modulus"}, {}),
            L("even", FALSE, {"bad-modulus"}, {}), L("short", FALSE, {"bad-modulus"}, {}), L("long", FALSE, {"bad-modulus"}, {}),
-           L("small", FALSE, {"bad-modulus"}, {}), L("wrongtype", TRUE, {}, {}) }
+           L("small", FALSE, {"bad-modulus"}, {}), L("smallpadded", FALSE, {"bad-modulus"}, {}), L("wrongtype", TRUE, {}, {}) }
     [] kind = "pedersen" ->
          { L("absent", FALSE, {"bad-pedersen"}, {}), L("null", FALSE, {"bad-pedersen"}, {}), L("zero", FALSE, {"bad-pedersen"}, {}),
            L("equal", FALSE, {"bad-pedersen"}, {}), L("modulus", FALSE, {"bad-pedersen"}, {}), L("toolarge", FALSE, {"bad-pedersen"}, {}),
